@@ -39,6 +39,7 @@ type Stats struct {
 	StatesSeen  int64 // distinct state keys (happens-before classes at scheduling decisions)
 	Divergences []string
 	Violations  []FoundVio
+	KeyNoise    int64 // replays whose choice points matched but whose happens-before state keys did not
 }
 
 // FoundVio is a violation with its replayable schedule.
@@ -221,6 +222,16 @@ func Explore(t *testing.T, opts Options, body Body) *Stats {
 				st.Replays++
 				if rep.out.Obs != res.out.Obs || rep.div != "" || rep.panicV != nil {
 					st.Divergences = append(st.Divergences, fmt.Sprintf("replay of %v gave obs %q (div %q panic %v), first run %q", prefix, rep.out.Obs, rep.div, rep.panicV, res.out.Obs))
+				} else if d := traceDiff(res.trace, rep.trace); d != "" {
+					st.Divergences = append(st.Divergences, fmt.Sprintf("replay of %v: %s", prefix, d))
+				}
+				if len(rep.keys) == len(res.keys) {
+					for i := range rep.keys {
+						if rep.keys[i] != res.keys[i] {
+							st.KeyNoise++
+							break
+						}
+					}
 				}
 			}
 			for _, v := range res.out.Violations {
@@ -373,4 +384,18 @@ func Replay(t *testing.T, opts Options, schedule []Choice, body Body) (Outcome, 
 		div = fmt.Sprintf("panic: %v", res.panicV)
 	}
 	return res.out, res.events, div
+}
+
+// traceDiff compares the choice points of an execution and of its replay: the
+// same schedule must meet the same choice points with the same alternatives.
+func traceDiff(a, b []ChoicePoint) string {
+	if len(a) != len(b) {
+		return fmt.Sprintf("replay met %d choice points, first run %d", len(b), len(a))
+	}
+	for i := range a {
+		if a[i] != b[i] {
+			return fmt.Sprintf("choice point %d differs: first run %+v, replay %+v", i, a[i], b[i])
+		}
+	}
+	return ""
 }
